@@ -1,11 +1,23 @@
-//! C19 harness: operation sequences on `lightmotif::dense::DenseMatrix`.
+//! C19 harness: operation sequences on a register file of three
+//! `lightmotif::dense::DenseMatrix` values (different histories, capacities, paddings).
 //!
 //! `dense gen --seed S --n N` prints input lines
-//!     <id> T=<ty> size=<bytes> C=<cols> align=<a> ops=<op;op;...>
+//!     <id> T=<ty> size=<bytes> C=<cols> align=<a> pat=<bits> ops=<op;op;...>
+//! An op is `[r<k>.]<name>:<args>`; without the `r<k>.` prefix it acts on register 0.
+//!   single-matrix : new:R  cap:R:CAP  resize:R  fill:V  set:R:C:V  setmc:R:C:V  from[:ROWS]
+//!                   clone  imc:C:V  fromx:CLAIMED[:ROWS]  reserve:N
+//!   two registers : cf:D:S (regs[D].clone_from(&regs[S]))   ct:D:S (regs[D] = regs[S].clone())
+//!                   swap:A:B (mem::swap)    mv:D:S (regs[D] = mem::replace(&mut regs[S], new(0)))
+//! `fromx` is `from_rows` with an iterator whose `ExactSizeIterator::len()` says CLAIMED.
+//! `pat` is the next()/next_back() pattern (1 = next) of the final double-ended walks.
+//!
 //! `dense run` reads input lines on stdin and prints them followed by
-//!     ` => <obs>;<obs>;...;END|iter|rev|eqclone|eqpad|eqmod`
-//! where each per-op observation is `rows|stride|aligned|ravelok|contents`, or `P`
-//! when the operation panicked (which ends the case).
+//!     ` => <obs>;<obs>;...;END&<fin0>&<fin1>&<fin2>`
+//! where each per-op observation is `<m0>&<m1>&<m2>&E<9 bits>&N<9 bits>`,
+//! `<mi>` = `rows|stride|aligned|ravelok|capacity|contents|U<v> or -` (U<v>: every cell of ravel(), padding
+//! included, holds v), E/N the results of `==` / `!=`
+//! for all register pairs (a-major); `P` when the operation panicked (which ends the case);
+//! `<fin>` = `iter|rev|into|intomut|mixed|mixedmut|mixedinto|lens|eqclone|eqpad|eqmod`.
 
 use generic_array::ArrayLength;
 use lightmotif::dense::DenseMatrix;
@@ -17,6 +29,9 @@ use lmh::*;
 const ALIGN: usize = 32;
 #[cfg(not(target_arch = "x86_64"))]
 const ALIGN: usize = 16;
+
+const NREG: usize = 3;
+const DEFAULT_PAT: &str = "1011011011011011";
 
 trait Val: Copy + Default + PartialEq + std::fmt::Debug {
     fn from_i(i: i64) -> Self;
@@ -55,6 +70,7 @@ impl Val for i64 {
     }
 }
 
+/// single-matrix operations
 #[derive(Debug, Clone)]
 enum Op {
     New(usize),
@@ -66,6 +82,18 @@ enum Op {
     From(Vec<Vec<i64>>),
     Clone,
     Imc(usize, i64),
+    FromX(usize, Vec<Vec<i64>>),
+    Reserve(usize),
+}
+
+/// operations on the register file
+#[derive(Debug, Clone)]
+enum ROp {
+    Local(usize, Op),
+    CloneFrom(usize, usize),
+    CloneTo(usize, usize),
+    Swap(usize, usize),
+    Move(usize, usize),
 }
 
 fn show_rows(rows: &[Vec<i64>]) -> String {
@@ -76,6 +104,17 @@ fn show_rows(rows: &[Vec<i64>]) -> String {
             } else {
                 r.iter().map(|x| x.to_string()).collect::<Vec<_>>().join(",")
             }
+        })
+        .collect::<Vec<_>>()
+        .join("/")
+}
+
+fn show_opt_rows(rows: &[Option<Vec<i64>>]) -> String {
+    rows.iter()
+        .map(|r| match r {
+            None => "~".to_string(),
+            Some(r) if r.is_empty() => "-".to_string(),
+            Some(r) => r.iter().map(|x| x.to_string()).collect::<Vec<_>>().join(","),
         })
         .collect::<Vec<_>>()
         .join("/")
@@ -98,6 +137,25 @@ fn show_op(op: &Op) -> String {
         }
         Op::Clone => "clone".to_string(),
         Op::Imc(c, v) => format!("imc:{}:{}", c, v),
+        Op::FromX(n, rows) => {
+            if rows.is_empty() {
+                format!("fromx:{}", n)
+            } else {
+                format!("fromx:{}:{}", n, show_rows(rows))
+            }
+        }
+        Op::Reserve(n) => format!("reserve:{}", n),
+    }
+}
+
+fn show_rop(op: &ROp) -> String {
+    match op {
+        ROp::Local(0, o) => show_op(o),
+        ROp::Local(d, o) => format!("r{}.{}", d, show_op(o)),
+        ROp::CloneFrom(d, s) => format!("cf:{}:{}", d, s),
+        ROp::CloneTo(d, s) => format!("ct:{}:{}", d, s),
+        ROp::Swap(a, b) => format!("swap:{}:{}", a, b),
+        ROp::Move(d, s) => format!("mv:{}:{}", d, s),
     }
 }
 
@@ -128,19 +186,65 @@ fn parse_op(s: &str) -> Op {
         "from" => Op::From(if p.len() > 1 { parse_rows(p[1]) } else { vec![] }),
         "clone" => Op::Clone,
         "imc" => Op::Imc(p[1].parse().unwrap(), p[2].parse().unwrap()),
+        "fromx" => Op::FromX(p[1].parse().unwrap(), if p.len() > 2 { parse_rows(p[2]) } else { vec![] }),
+        "reserve" => Op::Reserve(p[1].parse().unwrap()),
         _ => panic!("bad op {}", s),
     }
 }
 
-fn contents<T: Val, C: ArrayLength>(m: &DenseMatrix<T, C>) -> Vec<Vec<i64>> {
-    (0..m.rows())
-        .map(|r| (0..m.columns()).map(|c| m[r][c].to_i()).collect())
-        .collect()
+fn parse_rop(s: &str) -> ROp {
+    if let Some(rest) = s.strip_prefix('r') {
+        if let Some((d, o)) = rest.split_once('.') {
+            if let Ok(d) = d.parse::<usize>() {
+                return ROp::Local(d, parse_op(o));
+            }
+        }
+    }
+    let p: Vec<&str> = s.split(':').collect();
+    match p[0] {
+        "cf" => ROp::CloneFrom(p[1].parse().unwrap(), p[2].parse().unwrap()),
+        "ct" => ROp::CloneTo(p[1].parse().unwrap(), p[2].parse().unwrap()),
+        "swap" => ROp::Swap(p[1].parse().unwrap(), p[2].parse().unwrap()),
+        "mv" => ROp::Move(p[1].parse().unwrap(), p[2].parse().unwrap()),
+        _ => ROp::Local(0, parse_op(s)),
+    }
+}
+
+/// An iterator over rows whose `ExactSizeIterator::len()` reports `claimed`.
+struct Lying<T> {
+    it: std::vec::IntoIter<Vec<T>>,
+    claimed: usize,
+}
+impl<T> Iterator for Lying<T> {
+    type Item = Vec<T>;
+    fn next(&mut self) -> Option<Vec<T>> {
+        self.it.next()
+    }
+    fn size_hint(&self) -> (usize, Option<usize>) {
+        (self.claimed, Some(self.claimed))
+    }
+}
+impl<T> ExactSizeIterator for Lying<T> {
+    fn len(&self) -> usize {
+        self.claimed
+    }
+}
+
+fn row_i<T: Val>(r: &[T]) -> Vec<i64> {
+    r.iter().map(|x| x.to_i()).collect()
 }
 
 fn observe<T: Val, C: ArrayLength>(m: &DenseMatrix<T, C>) -> String {
     let rows = m.rows();
     let stride = m.stride();
+    let cap = m.capacity();
+    // rows() reads the `rows` field, iteration / indexing the data vector: when they
+    // disagree the other observers (m[r], ravel()) are out of bounds; report the rows
+    // iteration sees and flag layout as broken instead of touching them
+    let it_rows: Vec<Vec<i64>> = m.iter().map(row_i).collect();
+    if it_rows.len() != rows {
+        return format!("{}|{}|0|0|{}|{}|-", rows, stride, cap, show_rows(&it_rows));
+    }
     let mut aligned = true;
     for r in 0..rows {
         let p = m[r].as_ptr() as usize;
@@ -152,24 +256,34 @@ fn observe<T: Val, C: ArrayLength>(m: &DenseMatrix<T, C>) -> String {
             aligned = false;
         }
     }
+    let contents: Vec<Vec<i64>> = (0..rows)
+        .map(|r| (0..m.columns()).map(|c| m[r][c].to_i()).collect())
+        .collect();
     let rav = unsafe { m.ravel() };
     let mut ravelok = rav.len() == rows * stride;
     if ravelok {
         for r in 0..rows {
             for c in 0..m.columns() {
-                if rav[r * stride + c] != m[r][c] {
+                if rav[r * stride + c] != m[r][c] || m[MatrixCoordinates::new(r, c)] != m[r][c] {
                     ravelok = false;
                 }
             }
         }
     }
+    // the whole flat view (padding included) holds one value: what fill() must achieve
+    let uniform = match rav.first() {
+        Some(v0) if rav.iter().all(|x| x == v0) => format!("U{}", v0.to_i()),
+        _ => "-".to_string(),
+    };
     format!(
-        "{}|{}|{}|{}|{}",
+        "{}|{}|{}|{}|{}|{}|{}",
         rows,
         stride,
         aligned as u8,
         ravelok as u8,
-        show_rows(&contents(m))
+        cap,
+        show_rows(&contents),
+        uniform
     )
 }
 
@@ -194,108 +308,179 @@ fn apply<T: Val, C: ArrayLength>(m: &mut DenseMatrix<T, C>, op: &Op) {
                 row[*c] = T::from_i(*v);
             }
         }
+        Op::FromX(claimed, rows) => {
+            let rs: Vec<Vec<T>> = rows
+                .iter()
+                .map(|r| r.iter().map(|x| T::from_i(*x)).collect())
+                .collect();
+            *m = DenseMatrix::from_rows(Lying {
+                it: rs.into_iter(),
+                claimed: *claimed,
+            });
+        }
+        Op::Reserve(n) => m.reserve(*n),
     }
 }
 
-fn run_case<T: Val, C: ArrayLength + PartialEq>(ops: &[Op]) -> String {
-    let mut m: DenseMatrix<T, C> = DenseMatrix::new(0);
+fn apply_r<T: Val, C: ArrayLength>(regs: &mut Vec<DenseMatrix<T, C>>, op: &ROp) {
+    match op {
+        ROp::Local(d, o) => apply(&mut regs[*d], o),
+        ROp::CloneFrom(d, s) => {
+            if d == s {
+                let c = regs[*s].clone();
+                regs[*d].clone_from(&c);
+            } else if d < s {
+                let (a, b) = regs.split_at_mut(*s);
+                a[*d].clone_from(&b[0]);
+            } else {
+                let (a, b) = regs.split_at_mut(*d);
+                b[0].clone_from(&a[*s]);
+            }
+        }
+        ROp::CloneTo(d, s) => {
+            let c = regs[*s].clone();
+            regs[*d] = c;
+        }
+        ROp::Swap(a, b) => {
+            assert!(*a < regs.len() && *b < regs.len());
+            if a != b {
+                let (lo, hi) = if a < b { (*a, *b) } else { (*b, *a) };
+                let (x, y) = regs.split_at_mut(hi);
+                std::mem::swap(&mut x[lo], &mut y[0]);
+            }
+        }
+        ROp::Move(d, s) => {
+            assert!(*d < regs.len());
+            let taken = std::mem::replace(&mut regs[*s], DenseMatrix::new(0));
+            regs[*d] = taken;
+        }
+    }
+}
+
+fn bits(v: &[bool]) -> String {
+    v.iter().map(|b| if *b { '1' } else { '0' }).collect()
+}
+
+fn observe_all<T: Val, C: ArrayLength + PartialEq>(regs: &[DenseMatrix<T, C>]) -> String {
+    let mut parts: Vec<String> = regs.iter().map(observe).collect();
+    let mut eq = vec![];
+    let mut ne = vec![];
+    for a in regs {
+        for b in regs {
+            eq.push(a == b);
+            ne.push(a != b);
+        }
+    }
+    parts.push(format!("E{}", bits(&eq)));
+    parts.push(format!("N{}", bits(&ne)));
+    parts.join("&")
+}
+
+fn final_obs<T: Val, C: ArrayLength + PartialEq>(m: &DenseMatrix<T, C>, pat: &[bool]) -> String {
+    let it: Vec<Vec<i64>> = m.iter().map(row_i).collect();
+    let rv: Vec<Vec<i64>> = m.iter().rev().map(row_i).collect();
+    let into: Vec<Vec<i64>> = (&*m).into_iter().map(row_i).collect();
+    let mut cm = m.clone();
+    let into_mut: Vec<Vec<i64>> = (&mut cm).into_iter().map(|r| row_i(r)).collect();
+    // double-ended iteration following the pattern, continued past exhaustion
+    let mut mixed: Vec<Option<Vec<i64>>> = vec![];
+    let mut lens: Vec<usize> = vec![];
+    {
+        let mut it = m.iter();
+        for front in pat {
+            let r = if *front { it.next() } else { it.next_back() };
+            mixed.push(r.map(row_i));
+            lens.push(it.len());
+        }
+    }
+    let mut mixed_mut: Vec<Option<Vec<i64>>> = vec![];
+    {
+        let mut c = m.clone();
+        let mut it = c.iter_mut();
+        for front in pat {
+            let r = if *front { it.next() } else { it.next_back() };
+            mixed_mut.push(r.map(|x| row_i(x)));
+        }
+    }
+    let mut mixed_into: Vec<Option<Vec<i64>>> = vec![];
+    {
+        let mut it = (&*m).into_iter();
+        for front in pat {
+            let r = if *front { it.next() } else { it.next_back() };
+            mixed_into.push(r.map(row_i));
+        }
+    }
+    let eqclone = *m == m.clone() && !(*m != m.clone());
+    // same logical cells; different history, capacity and padding
+    let mut c: DenseMatrix<T, C> = DenseMatrix::with_capacity(it.len() + 2, it.len() + 7);
+    c.fill(T::from_i(99));
+    c.resize(it.len());
+    for (r, row) in it.iter().enumerate() {
+        for (k, x) in row.iter().enumerate() {
+            c[r][k] = T::from_i(*x);
+        }
+    }
+    let eqpad = c == *m && *m == c && !(c != *m);
+    // one logical cell changed
+    let mut c2 = m.clone();
+    if !it.is_empty() && c2.columns() > 0 {
+        let v = c2[0][0].to_i();
+        c2[0][0] = T::from_i(if v == 1 { 2 } else { 1 });
+    }
+    let eqmod = c2 == *m;
+    format!(
+        "{}|{}|{}|{}|{}|{}|{}|{}|{}|{}|{}",
+        show_rows(&it),
+        show_rows(&rv),
+        show_rows(&into),
+        show_rows(&into_mut),
+        show_opt_rows(&mixed),
+        show_opt_rows(&mixed_mut),
+        show_opt_rows(&mixed_into),
+        lens.iter().map(|x| x.to_string()).collect::<Vec<_>>().join(","),
+        eqclone as u8,
+        eqpad as u8,
+        eqmod as u8
+    )
+}
+
+fn run_case<T: Val, C: ArrayLength + PartialEq>(ops: &[ROp], pat: &[bool]) -> String {
+    let mut regs: Vec<DenseMatrix<T, C>> = (0..NREG).map(|_| DenseMatrix::new(0)).collect();
     let mut out: Vec<String> = vec![];
     for op in ops {
-        let r = no_panic(|| apply(&mut m, op));
+        let r = no_panic(|| apply_r(&mut regs, op));
         match r {
             None => {
                 out.push("P".to_string());
                 return out.join(";");
             }
-            Some(()) => out.push(observe(&m)),
+            Some(()) => match no_panic(|| observe_all(&regs)) {
+                Some(o) => out.push(o),
+                None => {
+                    out.push("OBSPANIC".to_string());
+                    return out.join(";");
+                }
+            },
         }
     }
-    // final observations
-    let it: Vec<Vec<i64>> = m.iter().map(|r| r.iter().map(|x| x.to_i()).collect()).collect();
-    let rv: Vec<Vec<i64>> = m
-        .iter()
-        .rev()
-        .map(|r| r.iter().map(|x| x.to_i()).collect())
-        .collect();
-    // double-ended iteration with a fixed interleaving of next()/next_back():
-    // call i uses next() unless i % 3 == 1; one extra call must return None
-    let mix = |n: usize| -> Vec<bool> { (0..n).map(|i| i % 3 != 1).collect() };
-    let mut mixed: Vec<Vec<i64>> = vec![];
-    let mut extra_none;
-    let mut len_ok;
-    {
-        let mut it = m.iter();
-        len_ok = it.len() == m.rows();
-        for front in mix(m.rows()) {
-            let r = if front { it.next() } else { it.next_back() };
-            match r {
-                Some(row) => mixed.push(row.iter().map(|x| x.to_i()).collect()),
-                None => mixed.push(vec![-1]),
-            }
-            len_ok &= it.len() + mixed.len() == m.rows();
-        }
-        extra_none = it.next().is_none() && it.next_back().is_none();
+    match no_panic(|| regs.iter().map(|m| final_obs(m, pat)).collect::<Vec<_>>().join("&")) {
+        Some(f) => out.push(format!("END&{}", f)),
+        None => out.push("OBSPANIC".to_string()),
     }
-    // the same through iter_mut() on a clone, reading the rows it hands out
-    let mut mixed_mut: Vec<Vec<i64>> = vec![];
-    {
-        let mut c = m.clone();
-        let rows = c.rows();
-        let mut it = c.iter_mut();
-        len_ok &= it.len() == rows;
-        for front in mix(rows) {
-            let r = if front { it.next() } else { it.next_back() };
-            match r {
-                Some(row) => mixed_mut.push(row.iter().map(|x| x.to_i()).collect()),
-                None => mixed_mut.push(vec![-1]),
-            }
-        }
-        extra_none &= it.next().is_none();
-    }
-    let into: Vec<Vec<i64>> = (&m).into_iter().map(|r| r.iter().map(|x| x.to_i()).collect()).collect();
-    let eqclone = m == m.clone();
-    // same logical cells, different padding
-    let mut c = m.clone();
-    c.fill(T::from_i(99));
-    for r in 0..m.rows() {
-        for k in 0..m.columns() {
-            c[r][k] = m[r][k];
-        }
-    }
-    let eqpad = c == m && m == c;
-    // one logical cell changed
-    let mut c2 = m.clone();
-    if c2.rows() > 0 {
-        let v = c2[0][0].to_i();
-        c2[0][0] = T::from_i(if v == 1 { 2 } else { 1 });
-    }
-    let eqmod = c2 == m;
-    out.push(format!(
-        "END|{}|{}|{}|{}|{}|{}|{}|{}|{}",
-        show_rows(&it),
-        show_rows(&rv),
-        eqclone as u8,
-        eqpad as u8,
-        eqmod as u8,
-        show_rows(&mixed),
-        show_rows(&mixed_mut),
-        show_rows(&into),
-        (extra_none && len_ok) as u8
-    ));
     out.join(";")
 }
 
-fn dispatch(ty: &str, c: usize, ops: &[Op]) -> String {
+fn dispatch(ty: &str, c: usize, ops: &[ROp], pat: &[bool]) -> String {
     macro_rules! cols {
         ($t:ty) => {
             match c {
-                1 => run_case::<$t, U1>(ops),
-                5 => run_case::<$t, U5>(ops),
-                7 => run_case::<$t, U7>(ops),
-                16 => run_case::<$t, U16>(ops),
-                21 => run_case::<$t, U21>(ops),
-                32 => run_case::<$t, U32>(ops),
-                43 => run_case::<$t, U43>(ops),
+                1 => run_case::<$t, U1>(ops, pat),
+                5 => run_case::<$t, U5>(ops, pat),
+                7 => run_case::<$t, U7>(ops, pat),
+                16 => run_case::<$t, U16>(ops, pat),
+                21 => run_case::<$t, U21>(ops, pat),
+                32 => run_case::<$t, U32>(ops, pat),
+                43 => run_case::<$t, U43>(ops, pat),
                 _ => panic!("unsupported column count {}", c),
             }
         };
@@ -318,82 +503,315 @@ fn size_of(ty: &str) -> usize {
     }
 }
 
+// ---------- generator ----------
+
+struct Gen<'a> {
+    rng: &'a mut Rng,
+    c: usize,
+    rows: [usize; NREG], // tracked to generate mostly-valid indices
+    ops: Vec<ROp>,
+}
+
+impl<'a> Gen<'a> {
+    fn push(&mut self, op: ROp) {
+        match &op {
+            ROp::Local(d, o) => match o {
+                Op::New(r) | Op::Cap(r, _) | Op::Resize(r) => self.rows[*d] = *r,
+                Op::From(rs) => {
+                    if rs.iter().all(|r| r.len() == self.c) {
+                        self.rows[*d] = rs.len()
+                    }
+                }
+                Op::FromX(n, rs) => {
+                    if rs.iter().all(|r| r.len() == self.c) && rs.len() <= *n {
+                        self.rows[*d] = rs.len()
+                    }
+                }
+                _ => {}
+            },
+            ROp::CloneFrom(d, s) | ROp::CloneTo(d, s) => self.rows[*d] = self.rows[*s],
+            ROp::Swap(a, b) => self.rows.swap(*a, *b),
+            ROp::Move(d, s) => {
+                if d != s {
+                    self.rows[*d] = self.rows[*s];
+                    self.rows[*s] = 0;
+                }
+            }
+        }
+        self.ops.push(op);
+    }
+
+    fn data_rows(&mut self, n: usize) -> Vec<Vec<i64>> {
+        let c = self.c;
+        (0..n).map(|_| (0..c).map(|_| self.rng.range(0, 200)).collect()).collect()
+    }
+
+    fn reg(&mut self) -> usize {
+        // register 0 most often
+        if self.rng.chance(1, 2) {
+            0
+        } else {
+            self.rng.below(NREG as u64) as usize
+        }
+    }
+
+    fn write(&mut self, d: usize) {
+        // a valid cell write (or a column write) on a non-empty register
+        if self.rows[d] == 0 {
+            return;
+        }
+        let r = self.rng.below(self.rows[d] as u64) as usize;
+        let cc = self.rng.below(self.c as u64) as usize;
+        let v = self.rng.range(1, 200);
+        let op = match self.rng.below(3) {
+            0 => Op::Set(r, cc, v),
+            1 => Op::SetMc(r, cc, v),
+            _ => Op::Imc(cc, v),
+        };
+        { let op__ = ROp::Local(d, op); self.push(op__); }
+    }
+
+    fn random_op(&mut self, first: bool) {
+        let c = self.c;
+        let d = self.reg();
+        let rows = self.rows[d];
+        let mut k = self.rng.below(130);
+        if first && self.rng.chance(9, 10) {
+            k = *self.rng.pick(&[0u64, 8, 12, 70]);
+        }
+        if rows == 0 && (40..70).contains(&k) && self.rng.chance(9, 10) {
+            k = 12;
+        }
+        let op = if k < 8 {
+            ROp::Local(d, Op::New(self.rng.below(9) as usize))
+        } else if k < 12 {
+            let r = self.rng.below(9) as usize;
+            let cap = match self.rng.below(3) {
+                0 => self.rng.below(r as u64 + 1) as usize, // capacity below the row count
+                1 => r,
+                _ => r + self.rng.below(8) as usize,
+            };
+            ROp::Local(d, Op::Cap(r, cap))
+        } else if k < 32 {
+            let r = if rows == 0 { 1 + self.rng.below(12) as usize } else { self.rng.below(13) as usize };
+            ROp::Local(d, Op::Resize(r))
+        } else if k < 40 {
+            ROp::Local(d, Op::Fill(self.rng.range(0, 200)))
+        } else if k < 70 {
+            // mostly valid coordinates, sometimes out of range
+            let oob = self.rng.chance(1, 25);
+            let r = if oob && self.rng.chance(1, 2) {
+                rows + self.rng.below(2) as usize
+            } else if rows > 0 {
+                self.rng.below(rows as u64) as usize
+            } else {
+                0
+            };
+            let cc = if oob { c + self.rng.below(2) as usize } else { self.rng.below(c as u64) as usize };
+            let v = self.rng.range(0, 200);
+            if self.rng.chance(1, 2) {
+                ROp::Local(d, Op::Set(r, cc, v))
+            } else {
+                ROp::Local(d, Op::SetMc(r, cc, v))
+            }
+        } else if k < 80 {
+            let r = self.rng.below(6) as usize;
+            let ragged = self.rng.chance(1, 20);
+            let mut rs = self.data_rows(r);
+            if ragged && r > 0 {
+                let i = self.rng.below(r as u64) as usize;
+                if self.rng.chance(1, 2) {
+                    rs[i].pop();
+                } else {
+                    rs[i].push(7);
+                }
+            }
+            if self.rng.chance(1, 3) {
+                // untrusted len(): honest, fewer rows than claimed, (rarely) more
+                let claimed = match self.rng.below(8) {
+                    0 => r.saturating_sub(1 + self.rng.below(2) as usize),
+                    1 | 2 => r,
+                    _ => r + 1 + self.rng.below(4) as usize,
+                };
+                ROp::Local(d, Op::FromX(claimed, rs))
+            } else {
+                ROp::Local(d, Op::From(rs))
+            }
+        } else if k < 88 {
+            ROp::Local(d, Op::Clone)
+        } else if k < 98 {
+            let cc = if self.rng.chance(1, 25) { c } else { self.rng.below(c as u64) as usize };
+            ROp::Local(d, Op::Imc(cc, self.rng.range(0, 200)))
+        } else if k < 102 {
+            ROp::Local(d, Op::Reserve(self.rng.below(12) as usize))
+        } else if k < 112 {
+            ROp::CloneFrom(d, self.rng.below(NREG as u64) as usize)
+        } else if k < 120 {
+            ROp::CloneTo(d, self.rng.below(NREG as u64) as usize)
+        } else if k < 125 {
+            ROp::Swap(d, self.rng.below(NREG as u64) as usize)
+        } else {
+            ROp::Move(d, self.rng.below(NREG as u64) as usize)
+        };
+        { let op__ = op; self.push(op__); }
+    }
+
+    /// directed openings for the multi-step situations that random sequences rarely reach
+    fn scenario(&mut self) {
+        let d = self.rng.below(NREG as u64) as usize;
+        let s = (d + 1 + self.rng.below(NREG as u64 - 1) as usize) % NREG;
+        match self.rng.below(6) {
+            0 => {
+                // clone_from into a destination with spare capacity and another row count
+                let big = 4 + self.rng.below(9) as usize;
+                if self.rng.chance(1, 2) {
+                    { let op__ = ROp::Local(d, Op::New(big)); self.push(op__); }
+                } else {
+                    let extra = self.rng.below(6) as usize;
+                    { let op__ = ROp::Local(d, Op::Cap(self.rng.below(big as u64 + 1) as usize, big + extra)); self.push(op__); }
+                }
+                if self.rng.chance(1, 2) {
+                    { let op__ = ROp::Local(d, Op::Fill(self.rng.range(1, 200))); self.push(op__); }
+                }
+                self.write(d);
+                if self.rng.chance(2, 3) {
+                    { let op__ = ROp::Local(d, Op::Resize(self.rng.below(big as u64) as usize)); self.push(op__); }
+                }
+                let k = self.rng.below(big as u64 + 1) as usize;
+                let rs = self.data_rows(k);
+                { let op__ = ROp::Local(s, Op::From(rs)); self.push(op__); }
+                { let op__ = ROp::CloneFrom(d, s); self.push(op__); }
+                if self.rng.chance(1, 2) {
+                    { let op__ = ROp::Local(d, Op::Fill(self.rng.range(1, 200))); self.push(op__); }
+                }
+                if self.rng.chance(1, 2) {
+                    // refresh a second time from a template of another height
+                    let k2 = self.rng.below(big as u64 + 1) as usize;
+                    let rs2 = self.data_rows(k2);
+                    { let op__ = ROp::Local(s, Op::From(rs2)); self.push(op__); }
+                    { let op__ = ROp::CloneFrom(d, s); self.push(op__); }
+                }
+            }
+            1 => {
+                // with_capacity + resize up/down sequences crossing the capacity
+                let cap = self.rng.below(10) as usize;
+                let r0 = self.rng.below(cap as u64 + 1) as usize;
+                { let op__ = ROp::Local(d, Op::Cap(r0, cap)); self.push(op__); }
+                for _ in 0..(2 + self.rng.below(5)) {
+                    let r = match self.rng.below(4) {
+                        0 => cap,
+                        1 => cap + 1 + self.rng.below(6) as usize,
+                        2 => self.rng.below(cap as u64 + 1) as usize,
+                        _ => 0,
+                    };
+                    { let op__ = ROp::Local(d, Op::Resize(r)); self.push(op__); }
+                    match self.rng.below(3) {
+                        0 => { let op__ = ROp::Local(d, Op::Fill(self.rng.range(1, 200))); self.push(op__); }
+                        1 => self.write(d),
+                        _ => {}
+                    }
+                }
+            }
+            2 => {
+                // fill, shrink, grow: the re-exposed rows must be default again
+                let n = 2 + self.rng.below(10) as usize;
+                { let op__ = ROp::Local(d, Op::New(n)); self.push(op__); }
+                { let op__ = ROp::Local(d, Op::Fill(self.rng.range(1, 200))); self.push(op__); }
+                let small = self.rng.below(n as u64) as usize;
+                { let op__ = ROp::Local(d, Op::Resize(small)); self.push(op__); }
+                if self.rng.chance(1, 3) {
+                    { let op__ = ROp::Local(d, Op::Fill(self.rng.range(1, 200))); self.push(op__); }
+                }
+                { let op__ = ROp::Local(d, Op::Resize(small + 1 + self.rng.below(8) as usize)); self.push(op__); }
+                if self.rng.chance(1, 2) {
+                    { let op__ = ROp::CloneTo(s, d); self.push(op__); }
+                }
+            }
+            3 => {
+                // from_rows with a lying len()
+                let r = self.rng.below(6) as usize;
+                let rs = self.data_rows(r);
+                let claimed = if self.rng.chance(1, 5) {
+                    r.saturating_sub(1)
+                } else {
+                    r + self.rng.below(6) as usize
+                };
+                { let op__ = ROp::Local(d, Op::FromX(claimed, rs)); self.push(op__); }
+                { let op__ = ROp::Local(d, Op::Fill(self.rng.range(1, 200))); self.push(op__); }
+                { let op__ = ROp::Local(d, Op::Resize(r + self.rng.below(4) as usize)); self.push(op__); }
+            }
+            4 => {
+                // zero-row / zero-capacity matrices through every operation
+                match self.rng.below(3) {
+                    0 => { let op__ = ROp::Local(d, Op::New(0)); self.push(op__); }
+                    1 => { let op__ = ROp::Local(d, Op::Cap(0, 0)); self.push(op__); }
+                    _ => { let op__ = ROp::Local(d, Op::Cap(0, self.rng.below(5) as usize)); self.push(op__); }
+                }
+                { let op__ = ROp::Local(d, Op::Fill(self.rng.range(1, 200))); self.push(op__); }
+                { let op__ = ROp::Local(d, Op::Imc(self.rng.below(self.c as u64) as usize, 3)); self.push(op__); }
+                { let op__ = ROp::CloneFrom(s, d); self.push(op__); }
+                { let op__ = ROp::Local(d, Op::Clone); self.push(op__); }
+                { let op__ = ROp::Local(d, Op::Reserve(self.rng.below(4) as usize)); self.push(op__); }
+                { let op__ = ROp::Local(d, Op::Resize(self.rng.below(4) as usize)); self.push(op__); }
+                { let op__ = ROp::Local(d, Op::Resize(0)); self.push(op__); }
+                { let op__ = ROp::Swap(d, s); self.push(op__); }
+            }
+            _ => {
+                // equal logical cells reached through different histories
+                let n = 1 + self.rng.below(5) as usize;
+                let rs = self.data_rows(n);
+                { let op__ = ROp::Local(d, Op::From(rs.clone())); self.push(op__); }
+                { let op__ = ROp::Local(s, Op::Cap(n + 3, n + 9)); self.push(op__); }
+                { let op__ = ROp::Local(s, Op::Fill(self.rng.range(1, 200))); self.push(op__); }
+                { let op__ = ROp::Local(s, Op::Resize(n)); self.push(op__); }
+                for (r, row) in rs.iter().enumerate() {
+                    for (k, v) in row.iter().enumerate() {
+                        { let op__ = ROp::Local(s, Op::Set(r, k, *v)); self.push(op__); }
+                    }
+                    if self.ops.len() > 80 {
+                        break;
+                    }
+                }
+                if self.rng.chance(1, 2) {
+                    self.write(s);
+                }
+            }
+        }
+    }
+}
+
 fn gen_case(rng: &mut Rng, id: usize, tier: &str) -> String {
     let ty = *rng.pick(&["u8", "u32", "f32", "i64"]);
     let c = *rng.pick(&[1usize, 5, 7, 16, 21, 32, 43]);
     let maxops = if tier == "thorough" { 60 } else { 24 };
     let nops = 1 + rng.below(maxops) as usize;
-    let mut rows = 0usize; // tracked to generate mostly-valid indices
-    let mut ops = vec![];
+    let npat = rng.below(20) as usize;
+    let pat: Vec<bool> = (0..npat).map(|_| rng.chance(1, 2)).collect();
+    let mut g = Gen {
+        rng,
+        c,
+        rows: [0; NREG],
+        ops: vec![],
+    };
+    if g.rng.chance(2, 5) {
+        g.scenario();
+        if g.rng.chance(1, 3) {
+            g.scenario();
+        }
+    }
+    let start = g.ops.len();
     for i in 0..nops {
-        // start from a non-empty matrix most of the time; keep writes in range
-        let mut k = rng.below(100);
-        if i == 0 && rng.chance(9, 10) {
-            k = *rng.pick(&[0u64, 8, 12, 70]);
-        }
-        if rows == 0 && (40..70).contains(&k) && rng.chance(9, 10) {
-            k = 12;
-        }
-        let op = if k < 8 {
-            let r = rng.below(9) as usize;
-            rows = r;
-            Op::New(r)
-        } else if k < 12 {
-            let r = rng.below(9) as usize;
-            rows = r;
-            Op::Cap(r, r + rng.below(5) as usize)
-        } else if k < 32 {
-            let r = if rows == 0 { 1 + rng.below(12) as usize } else { rng.below(13) as usize };
-            rows = r;
-            Op::Resize(r)
-        } else if k < 40 {
-            Op::Fill(rng.range(0, 200))
-        } else if k < 70 {
-            // mostly valid coordinates, sometimes out of range
-            let oob = rng.chance(1, 25);
-            let r = if oob && rng.chance(1, 2) {
-                rows + rng.below(2) as usize
-            } else if rows > 0 {
-                rng.below(rows as u64) as usize
-            } else {
-                0
-            };
-            let cc = if oob { c + rng.below(2) as usize } else { rng.below(c as u64) as usize };
-            let v = rng.range(0, 200);
-            if rng.chance(1, 2) {
-                Op::Set(r, cc, v)
-            } else {
-                Op::SetMc(r, cc, v)
-            }
-        } else if k < 80 {
-            let r = rng.below(6) as usize;
-            let ragged = rng.chance(1, 20);
-            let rs: Vec<Vec<i64>> = (0..r)
-                .map(|i| {
-                    let len = if ragged && i == r - 1 { c.saturating_sub(1) } else { c };
-                    (0..len).map(|_| rng.range(0, 200)).collect()
-                })
-                .collect();
-            if !(ragged && r > 0) {
-                rows = r;
-            }
-            Op::From(rs)
-        } else if k < 90 {
-            Op::Clone
-        } else {
-            let cc = if rng.chance(1, 25) { c } else { rng.below(c as u64) as usize };
-            Op::Imc(cc, rng.range(0, 200))
-        };
-        ops.push(op);
+        g.random_op(i == 0 && start == 0);
     }
     format!(
-        "{} T={} size={} C={} align={} ops={}",
+        "{} T={} size={} C={} align={} pat={} ops={}",
         id,
         ty,
         size_of(ty),
         c,
         ALIGN,
-        ops.iter().map(show_op).collect::<Vec<_>>().join(";")
+        bits(&pat),
+        g.ops.iter().map(show_rop).collect::<Vec<_>>().join(";")
     )
 }
 
@@ -410,8 +828,15 @@ fn main() {
             silence_panics();
             for line in stdin_lines() {
                 let (_id, f) = fields(&line);
-                let ops: Vec<Op> = f["ops"].split(';').filter(|s| !s.is_empty()).map(parse_op).collect();
-                let obs = dispatch(&f["T"], f["C"].parse().unwrap(), &ops);
+                let ops: Vec<ROp> = f["ops"].split(';').filter(|s| !s.is_empty()).map(parse_rop).collect();
+                let pat: Vec<bool> = f
+                    .get("pat")
+                    .map(|s| s.as_str())
+                    .unwrap_or(DEFAULT_PAT)
+                    .chars()
+                    .map(|c| c == '1')
+                    .collect();
+                let obs = dispatch(&f["T"], f["C"].parse().unwrap(), &ops, &pat);
                 println!("{} => {}", line, obs);
             }
         }
